@@ -1,24 +1,47 @@
-"""C01 — marginal trees are exactly what the node and edge tables say."""
+"""C01 — marginal trees are exactly what the node and edge tables say.
+
+Monitors (all against lib.model / lib.treecheck, which are computed per position from {child: parent}):
+  check_tree:*     one positioned Tree against the reference forest, reached through every entry point
+                   (trees(), reversed, at, at_index, first/last, aslist, copy, reused Tree, copy-then-step)
+  breakpoints, num_trees, edge_diffs (+include_terminal, documented edge order), edgesets, records, coiterate
+Families (see cases()):  walk (forest walk, small), msprime (larger), big (>=256 children / depth / samples / roots),
+special (fixed structural extremes: zero nodes, one node, zero samples, sub-interval edge ...).
+
+EITHER zones (docs leave it open, either accepted):
+  * order of children / roots / siblings (compared as sets, traversals relative to the reported child order);
+  * samples() with root_threshold > 1 (all samples of the tree sequence, or those below the roots);
+  * MRCA with the virtual root as an argument; tree.root with zero roots;
+  * the interval reported by the extra include_terminal item of edge_diffs in the REVERSE direction;
+  * order in which edgesets()/records() are yielded, and the order of Edgeset.children.
+"""
 import itertools
 import math
+import warnings
 
 import numpy as np
 import tskit
 
 from lib import gen
 from lib.harness import case_rng
-from lib.model import NODE_IS_SAMPLE, NULL, RowModel
+from lib.model import NODE_IS_SAMPLE, NULL, Forest, RowModel, sort_edges_key
 from lib.treecheck import check_tree
 from lib.tsk import to_ts
 
 ID = "C01"
 
+N_SPECIAL = 10
+
 
 def cases(tier, seed):
     n = 12000 if tier == "quick" else 1500000
     for k in range(n):
-        if k % 60 == 59:
+        r = k % 60
+        if r == 59:
             yield {"gen": "msprime", "k": k}  # larger inputs with many trees (arbitrary doubles, ARG nodes)
+        elif r in (7, 37):
+            yield {"gen": "big", "k": k}  # >= 256 children / samples / roots, chains of depth > 256
+        elif r == 23:
+            yield {"gen": "special", "k": k}  # fixed structural extremes, cycled
         else:
             yield {"gen": "walk", "k": k}
     # exhaustive small scope is enumerated after the random cases (thorough only)
@@ -72,20 +95,228 @@ def build_msprime(rng):
     return m
 
 
+# ---------------------------------------------------------------------- structurally extreme instances
+
+
+def _from_parent_maps(rng, times, flags, maps, bounds):
+    """RowModel from one {child: parent} map per interval (bounds has len(maps)+1 entries); equal consecutive
+    parents are squashed into one edge."""
+    m = RowModel(bounds[-1])
+    n = len(times)
+    m.nodes = [(flags[u], float(times[u]), NULL, NULL, b"") for u in range(n)]
+    edges = []
+    for u in range(n):
+        start, cur = None, NULL
+        for i, pm in enumerate(maps):
+            p = pm.get(u, NULL)
+            if p != cur:
+                if cur != NULL:
+                    edges.append((start, bounds[i], cur, u, b""))
+                start, cur = bounds[i], p
+        if cur != NULL:
+            edges.append((start, bounds[-1], cur, u, b""))
+    m.edges = sorted(edges, key=sort_edges_key(m))
+    return m
+
+
+def build_big(rng):
+    """Instances past the sizes where a narrow counter, a short stack or a quadratic shortcut would show:
+    >= 256 children of one node, >= 256 roots, >= 256 samples, paths longer than 256 edges."""
+    kind = rng.choice(["star", "star", "chain", "chain", "comb", "isolated", "two-level", "broom"])
+    K = rng.choice([255, 256, 257, 300, 320])
+    S = NODE_IS_SAMPLE
+    if kind == "star":
+        # K leaves below one root; in the second tree a block of leaves hangs below a second, older root
+        times = [0.0] * K + [1.0, 2.0]
+        flags = [S if rng.random() < 0.9 else 0 for _ in range(K)] + [rng.choice([0, S]), 0]
+        a = {u: K for u in range(K)}
+        b = dict(a)
+        for u in rng.sample(range(K), rng.choice([1, 2, K // 2, K - 1])):
+            b[u] = K + 1
+        if rng.random() < 0.5:
+            b[K] = K + 1
+        maps = [a, b]
+    elif kind == "chain":
+        D = rng.choice([257, 300, 420])
+        times = [float(i) for i in range(D + 1)]
+        mode = rng.choice(["bottom", "all", "some"])
+        flags = [S if (i == 0 or mode == "all" or (mode == "some" and rng.random() < 0.3)) else 0
+                 for i in range(D + 1)]
+        a = {i: i + 1 for i in range(D)}
+        b = dict(a)
+        del b[rng.randrange(D)]  # cut the chain somewhere: two pieces, the upper one possibly dead
+        c = dict(a)
+        i = rng.randrange(D - 1)
+        c[i] = i + 2  # skip one node
+        maps = [a, b, c][: rng.choice([2, 3])]
+    elif kind == "comb":
+        K = rng.choice([130, 150])
+        # leaves 0..K-1, internal K..2K-2 (internal j at time j-K+1); leaf i+1 and internal K+i-1 join in K+i
+        times = [0.0] * K + [float(i + 1) for i in range(K - 1)]
+        flags = [S] * K + [0] * (K - 1)
+        a = {0: K, 1: K}
+        for i in range(2, K):
+            a[i] = K + i - 1
+            a[K + i - 2] = K + i - 1
+        b = dict(a)
+        u = rng.randrange(K)
+        b[u] = 2 * K - 2  # one leaf regrafted onto the root: its old parent becomes unary
+        maps = [a, b]
+    elif kind == "isolated":
+        # K isolated samples (K roots) and one cherry; second tree: everything isolated, or a star appears
+        times = [0.0] * K + [1.0]
+        flags = [S] * K + [0]
+        a = {0: K, 1: K}
+        b = {} if rng.random() < 0.5 else {u: K for u in range(K)}
+        maps = [a, b, a][: rng.choice([2, 3])]
+    elif kind == "two-level":
+        g = rng.choice([16, 18])
+        # root R with g children, each with g leaf samples: g*g >= 256 samples
+        leaves = g * g
+        times = [0.0] * leaves + [1.0] * g + [2.0]
+        flags = [S] * leaves + [rng.choice([0, S]) for _ in range(g)] + [0]
+        a = {u: leaves + u // g for u in range(leaves)}
+        for j in range(g):
+            a[leaves + j] = leaves + g
+        b = dict(a)
+        for u in rng.sample(range(leaves), g):
+            b[u] = leaves + rng.randrange(g)
+        del b[leaves + rng.randrange(g)]  # one whole group becomes its own root
+        maps = [a, b]
+    else:  # broom: a long handle (unary chain) with K bristles at the bottom node
+        D = 260
+        times = [0.0] * K + [float(i + 1) for i in range(D)]
+        flags = [S] * K + [0] * D
+        a = {u: K for u in range(K)}
+        for i in range(D - 1):
+            a[K + i] = K + i + 1
+        b = dict(a)
+        b[rng.randrange(K)] = K + D - 1
+        maps = [a, b]
+    L = rng.choice([2.0, 8.0, 100.0])
+    nb = len(maps)
+    bounds = [0.0] + sorted(rng.sample([k * L / 8 for k in range(1, 8)], nb - 1)) + [L]
+    m = _from_parent_maps(rng, times, flags, maps, bounds)
+    gen.decorate_sites(rng, m, max_sites=4, max_muts=3)
+    m.tags.add("big:" + kind)
+    return m
+
+
+def build_special(rng, k):
+    """Fixed structural extremes (cycled by case number), lightly decorated."""
+    S = NODE_IS_SAMPLE
+    j = (k // 60) % N_SPECIAL
+    L = rng.choice([1.0, 8.0])
+    m = RowModel(L)
+
+    def node(flags, t):
+        m.nodes.append((flags, float(t), NULL, NULL, b""))
+
+    if j == 0:
+        pass  # no nodes at all: one empty tree over [0, L)
+    elif j == 1:
+        node(S, 0)  # a single sample and nothing else
+    elif j == 2:
+        node(0, 0)  # a single non-sample node
+    elif j == 3:
+        node(S, 0), node(0, 1)
+        m.edges = [(0.0, L, 1, 0, b"")]  # one edge; mutation on the (parentless) root and on the leaf
+        m.sites = [(0.0, "A", b"")]
+        m.mutations = [(0, 1, "C", NULL, None, b""), (0, 0, "G", 0, None, b"")]
+    elif j == 4:
+        for t in (0, 0, 1, 2):
+            node(0, t)  # topology but zero samples: no roots anywhere
+        m.edges = [(0.0, L, 2, 0, b""), (0.0, L, 2, 1, b""), (0.0, L / 2, 3, 2, b"")]
+    elif j == 5:
+        for _ in range(6):
+            node(S, 0)  # all rows identical, no edges: six isolated roots
+    elif j == 6:
+        node(S, 0), node(S, 0), node(0, 1)
+        m.edges = [(L / 4, L / 2, 2, 0, b""), (L / 4, L / 2, 2, 1, b"")]  # edges only over a strict sub-interval
+        m.sites = [(0.0, "A", b""), (L / 4, "C", b""), (L / 2, "G", b"")]
+        m.mutations = [(0, 0, "T", NULL, None, b""), (1, 0, "T", NULL, None, b""), (2, 2, "T", NULL, None, b"")]
+    elif j == 7:
+        node(S, 0), node(0, 1), node(0, 2), node(0, 3)
+        m.edges = [(0.0, L, 1, 0, b""), (0.0, L, 2, 1, b""), (0.0, L, 3, 2, b"")]  # one sample below a unary chain
+    elif j == 8:
+        node(S, 0), node(S, 1), node(S, 2)
+        m.edges = [(0.0, L / 2, 1, 0, b""), (L / 2, L, 2, 0, b""), (0.0, L, 2, 1, b"")]  # all-sample chain, 2 trees
+    else:
+        # the same parent/child pair over abutting intervals (unsquashed) plus a gap in the middle
+        node(S, 0), node(S, 0), node(0, 1)
+        q = L / 4
+        m.edges = [(0.0, q, 2, 0, b""), (q, 2 * q, 2, 0, b""), (3 * q, L, 2, 0, b""), (0.0, q, 2, 1, b""),
+                   (3 * q, L, 2, 1, b"")]
+    m.edges = sorted(m.edges, key=sort_edges_key(m))
+    m.tags.add(f"special:{j}")
+    return m
+
+
+def permute_tied_parent_groups(rng, m):
+    """The edge-order requirement is: by parent time, rows of one parent adjacent, then child, then left.  Parents
+    of EQUAL time may therefore come in any order; the generator always emits them by ascending id."""
+    groups = []
+    for e in m.edges:
+        if groups and groups[-1][0][2] == e[2]:
+            groups[-1].append(e)
+        else:
+            groups.append([e])
+    out, changed = [], False
+    for _, grp in itertools.groupby(groups, key=lambda g: m.time(g[0][2])):
+        grp = list(grp)
+        if len(grp) > 1:
+            before = [g[0][2] for g in grp]
+            rng.shuffle(grp)
+            changed = changed or before != [g[0][2] for g in grp]
+        for g in grp:
+            out.extend(g)
+    m.edges = out
+    if changed:
+        m.tags.add("edge-order:tied-parents-permuted")
+    return m
+
+
 def build(case):
     rng = case_rng(case)
-    if case.get("gen") == "msprime":
+    g = case.get("gen")
+    if g == "msprime":
         return rng, build_msprime(rng)
+    if g == "big":
+        return rng, build_big(rng)
+    if g == "special":
+        return rng, build_special(rng, case["k"])
     big = rng.random() < 0.15
     m = gen.gen_full(rng, max_nodes=24 if big else 9, max_bp=10 if big else 5, max_sites=6)
+    if rng.random() < 0.25:
+        permute_tied_parent_groups(rng, m)
     return rng, m
+
+
+# ---------------------------------------------------------------------- options and the forms they are passed in
+
+
+def boundary_threshold(rng, m):
+    """A root_threshold that sits exactly ON (or one above) the sample count of some root of some tree."""
+    bps = m.breakpoints()
+    i = rng.randrange(len(bps) - 1)
+    fr = Forest(m, m.forest_at((bps[i] + bps[i + 1]) / 2))
+    rs = sorted(fr.roots(1))
+    if not rs:
+        return 1
+    return max(1, fr.num_samples(rng.choice(rs)) + rng.choice([0, 0, 1]))
 
 
 def option_sets(rng, m):
     samples = m.samples()
     out = []
     for sample_lists in (False, True):
-        thr = rng.choice([1, 1, 2, 3])
+        r = rng.random()
+        if r < 0.6:
+            thr = rng.choice([1, 1, 2, 3])
+        elif r < 0.85:
+            thr = boundary_threshold(rng, m)
+        else:
+            thr = rng.choice([max(1, len(samples)), len(samples) + 1, 4, 5, 2 ** 31 - 1])
         r = rng.random()
         if r < 0.3 or not samples:
             tracked = None
@@ -99,91 +330,195 @@ def option_sets(rng, m):
     return out
 
 
+def tracked_form(rng, tracked, ctx):
+    """The same tracked sample set as list / tuple / numpy arrays / generator-free iterable in another order."""
+    f = rng.choice(["list", "list", "tuple", "int32", "int64", "reversed", "np-scalars"])
+    ctx.feature("tracked-form:" + f)
+    if f == "tuple":
+        return tuple(tracked)
+    if f == "int32":
+        return np.array(tracked, dtype=np.int32)
+    if f == "int64":
+        return np.array(tracked, dtype=np.int64)
+    if f == "reversed":
+        return list(reversed(tracked))
+    if f == "np-scalars":
+        return [np.int32(u) for u in tracked]
+    return list(tracked)
+
+
+def tree_kwargs(rng, opts, ctx, vary=True):
+    """Keyword arguments of the Tree constructor / ts.at / at_index / first / last / aslist / coiterate."""
+    kw = {"sample_lists": opts["sample_lists"], "root_threshold": opts["root_threshold"]}
+    if opts["tracked"] is not None:
+        kw["tracked_samples"] = tracked_form(rng, opts["tracked"], ctx) if vary else opts["tracked"]
+    if vary and not kw["sample_lists"] and rng.random() < 0.3:
+        del kw["sample_lists"]  # the default
+    if vary and kw["root_threshold"] == 1 and rng.random() < 0.3:
+        del kw["root_threshold"]
+    return kw
+
+
+def trees_iter(ts, rng, opts, ctx):
+    """ts.trees(...) through one of its argument forms, including the deprecated spellings."""
+    kw = tree_kwargs(rng, opts, ctx)
+    form = rng.choice(["kw", "kw", "positional", "deprecated", "sample_counts"])
+    if form == "positional" and "tracked_samples" in kw:
+        ctx.feature("trees-form:positional-tracked")
+        tr = kw.pop("tracked_samples")
+        return ts.trees(tr, **kw)
+    if form == "deprecated":
+        ctx.feature("trees-form:deprecated-leaf-names")
+        if "tracked_samples" in kw:
+            kw["tracked_leaves"] = kw.pop("tracked_samples")
+        if "sample_lists" in kw:
+            kw["leaf_lists"] = kw.pop("sample_lists")
+        return ts.trees(**kw)
+    if form == "sample_counts":
+        ctx.feature("trees-form:sample_counts")
+        kw[rng.choice(["sample_counts", "leaf_counts"])] = rng.choice([True, False])
+        with warnings.catch_warnings():
+            warnings.simplefilter("ignore")  # "not supported since 0.2.4 and is ignored"
+            return ts.trees(**kw)
+    ctx.feature("trees-form:keywords")
+    return ts.trees(**kw)
+
+
+def position_form(rng, x, ctx):
+    f = rng.choice(["float", "float", "np.float64", "int"])
+    if f == "np.float64":
+        ctx.feature("position-form:np.float64")
+        return np.float64(x)
+    if f == "int" and x == int(x):
+        ctx.feature("position-form:int")
+        return int(x)
+    return x
+
+
+def index_of(bps, x):
+    for i in range(len(bps) - 1):
+        if bps[i] <= x < bps[i + 1]:
+            return i
+    raise AssertionError(x)
+
+
+# ---------------------------------------------------------------------- the case
+
+
 def run_case(case, ctx):
     rng, m = build(case)
-    tags = gen.topo_tags(m)
+    tags = gen.topo_tags(m) if m.num_nodes <= 64 else set(m.tags)
     for t in tags:
         ctx.feature(t)
+    ctx.feature("gen:" + case.get("gen", "walk"))
     ctx.sig(m.signature(), nontrivial=len(m.edges) > 0)
     ctx.sample({"case": case, "model": m.to_json()}) if case["k"] < 2 else None
     ts = to_ts(m)
     bps = m.breakpoints()
     ntrees = len(bps) - 1
+    large = m.num_nodes > 64
+    mj = m.to_json() if not large else {"gen": case.get("gen"), "tags": sorted(m.tags), "num_nodes": m.num_nodes,
+                                        "edges": len(m.edges), "note": "large model: replay the case"}
 
     def report(bad, how, opts):
         for key, msg in bad[:5]:
-            ctx.violation(f"tree/{key}", f"[{how} opts={opts}] {msg}", {"model": m.to_json()})
+            ctx.violation(f"tree/{key}", f"[{how} opts={opts}] {msg}", {"model": mj})
 
-    if ts.num_trees != ntrees:
-        ctx.violation("num_trees", f"num_trees={ts.num_trees} expected {ntrees}", {"model": m.to_json()})
+    ctx.count("num_trees")
+    if ts.num_trees != ntrees or ts.get_num_trees() != ntrees or len(ts.trees()) != ntrees:
+        ctx.violation("num_trees", f"num_trees={ts.num_trees} get_num_trees()={ts.get_num_trees()} "
+                      f"len(trees())={len(ts.trees())} expected {ntrees}", {"model": mj})
         return
     got_bps = list(ts.breakpoints())
     ctx.count("breakpoints")
-    if got_bps != bps or list(ts.breakpoints(as_array=True)) != bps:
-        ctx.violation("breakpoints", f"breakpoints {got_bps} expected {bps}", {"model": m.to_json()})
+    if got_bps != bps or list(ts.breakpoints(as_array=True)) != bps or list(ts.breakpoints(True)) != bps:
+        ctx.violation("breakpoints", f"breakpoints {got_bps} expected {bps}", {"model": mj})
+    if large:
+        run_large(ts, m, rng, ctx, report, bps, mj)
+        check_edge_diffs(ts, m, ctx, rng, mj, light=True)
+        return
     for opts in option_sets(rng, m):
-        kw = {"sample_lists": opts["sample_lists"], "root_threshold": opts["root_threshold"]}
-        if opts["tracked"] is not None:
-            kw["tracked_samples"] = opts["tracked"]
+        kw = tree_kwargs(rng, opts, ctx, vary=False)
         # iteration
         idx = 0
-        for tree in ts.trees(**kw):
-            bad = check_tree(tree, m, opts, deep=True, rng=rng)
+        for tree in trees_iter(ts, rng, opts, ctx):
+            bad = check_tree(tree, m, opts, deep=True, rng=rng, wide=True)
             ctx.count("check_tree:trees()")
+            ctx.count("wide-deep")
             if tree.index != idx:
                 bad.append(("index", f"iteration index {tree.index} expected {idx}"))
+            if tree.tree_sequence is not ts:
+                bad.append(("options", "tree.tree_sequence is not the tree sequence it came from"))
             report(bad, "trees()", opts)
             idx += 1
         if idx != ntrees:
             ctx.violation("iteration", f"trees() yielded {idx} trees, expected {ntrees}")
         # reversed iteration
         idx = ntrees - 1
-        for tree in reversed(ts.trees(**kw)):
-            bad = check_tree(tree, m, opts, deep=False)
+        for tree in reversed(trees_iter(ts, rng, opts, ctx)):
+            deep = rng.random() < 0.15
+            bad = check_tree(tree, m, opts, deep=deep, rng=rng, wide=True)
             ctx.count("check_tree:reversed")
             if tree.index != idx:
                 bad.append(("index", f"reversed iteration index {tree.index} expected {idx}"))
             report(bad, "reversed(trees())", opts)
             idx -= 1
-        # direct access at positions
+        # direct access at positions: both ends of every interval, exact boundary neighbours, several number types
         for i in range(ntrees):
             l, r = bps[i], bps[i + 1]
-            for x in (l, (l + r) / 2, math.nextafter(r, 0)):
-                tree = ts.at(x, **kw)
+            xs = [l, (l + r) / 2, math.nextafter(r, 0)]
+            if rng.random() < 0.5:
+                xs[1] = rng.choice([math.nextafter(l, math.inf), l + (r - l) * rng.random(),
+                                    -0.0 if i == 0 else l])
+                ctx.feature("at:neighbour-of-left-end")
+            for x in xs:
+                akw = tree_kwargs(rng, opts, ctx)
+                xf = position_form(rng, x, ctx)
+                tree = ts.at(xf, **akw)
                 ctx.count("check_tree:at")
                 bad = []
                 if tree.index != i:
-                    bad.append(("at", f"at({x}) landed on tree {tree.index}, expected {i}"))
-                bad += check_tree(tree, m, opts, deep=False)
-                report(bad, f"at({x})", opts)
-            tree = ts.at_index(i, **kw)
+                    bad.append(("at", f"at({xf!r}) landed on tree {tree.index}, expected {i}"))
+                bad += check_tree(tree, m, opts, deep=False, wide=True)
+                report(bad, f"at({xf!r})", opts)
+            j = rng.choice([i, i, i - ntrees, np.int64(i), np.int32(i - ntrees)])
+            tree = ts.at_index(j, **tree_kwargs(rng, opts, ctx))
             ctx.count("check_tree:at_index")
-            bad = check_tree(tree, m, opts, deep=False)
+            if int(j) < 0:
+                ctx.feature("at_index:negative")
+            bad = check_tree(tree, m, opts, deep=rng.random() < 0.1, rng=rng, wide=True)
             if tree.index != i:
-                bad.append(("at_index", f"at_index({i}) landed on {tree.index}"))
-            report(bad, f"at_index({i})", opts)
+                bad.append(("at_index", f"at_index({j!r}) landed on {tree.index}, expected {i}"))
+            report(bad, f"at_index({j!r})", opts)
         for how, tree, i in (("first", ts.first(**kw), 0), ("last", ts.last(**kw), ntrees - 1)):
             ctx.count("check_tree:first/last")
-            bad = check_tree(tree, m, opts, deep=False)
+            bad = check_tree(tree, m, opts, deep=False, wide=True)
             if tree.index != i:
                 bad.append((how, f"{how}() landed on {tree.index}"))
             report(bad, how, opts)
         # copies: Tree.copy() of a positioned tree and ts.aslist() with the same options (both duplicate the C tree)
         for i, tree in enumerate(ts.aslist(**kw)):
             ctx.count("check_tree:aslist")
-            bad = check_tree(tree, m, opts, deep=False)
+            bad = check_tree(tree, m, opts, deep=False, wide=True)
             if tree.index != i:
                 bad.append(("aslist", f"aslist()[{i}] has index {tree.index}"))
             report(bad, "aslist(**options)", opts)
         for tree in ts.trees(**kw):
             if rng.random() < 0.5:
                 ctx.count("check_tree:copy")
-                report(check_tree(tree.copy(), m, opts, deep=False), "trees() -> copy()", opts)
+                cp = tree.copy()
+                report(check_tree(cp, m, opts, deep=rng.random() < 0.2, rng=rng, wide=True), "trees() -> copy()", opts)
+                if rng.random() < 0.5:
+                    # a copy is a full Tree: it must be able to walk on from where the original stood, in both
+                    # directions, without disturbing the original
+                    walk_copy(cp, tree, m, opts, rng, ctx, report, ntrees)
         # one Tree object reused: forward sweep, step off the end, backward sweep, first/last on a positioned tree
-        tree = tskit.Tree(ts, **kw)
+        tree = tskit.Tree(ts, kw["tracked_samples"], sample_lists=kw["sample_lists"],
+                          root_threshold=kw["root_threshold"]) if "tracked_samples" in kw else tskit.Tree(ts, **kw)
         seq = (["first"] + ["next"] * ntrees + ["last"] + ["prev"] * ntrees + ["first", "last", "first"]
                + (["next"] if ntrees > 1 else []) + ["last", "prev", "first"])
         pos = -1
+        ok = True
         for op in seq:
             r = getattr(tree, op)()
             pos = {"first": 0, "last": ntrees - 1}.get(op, pos)
@@ -193,69 +528,253 @@ def run_case(case, ctx):
                 pos = ntrees - 1 if pos == -1 else pos - 1
             ctx.count("check_tree:reused-tree")
             if tree.index != pos:
-                ctx.violation("tree/reused/index", f"reused Tree after {op}: index {tree.index} expected {pos}", {"model": m.to_json()})
+                ctx.violation("tree/reused/index", f"reused Tree after {op}: index {tree.index} expected {pos}", {"model": mj})
+                ok = False
                 break
             if pos >= 0:
-                report(check_tree(tree, m, opts, deep=False), f"reused Tree after ...{op}", opts)
+                report(check_tree(tree, m, opts, deep=False, wide=True), f"reused Tree after ...{op}", opts)
+        # ... then jumps on the same object: seek / seek_index / clear from wherever it stands (linear seeks in both
+        # directions, wrap-around through the null state, direction switches in the interior)
+        if ok:
+            random_jumps(tree, m, opts, rng, ctx, report, bps, pos)
     # aslist
     if rng.random() < 0.3:
         for i, tree in enumerate(ts.aslist()):
             ctx.count("check_tree:aslist")
-            report(check_tree(tree, m, {"root_threshold": 1}, deep=False), "aslist", {})
+            report(check_tree(tree, m, {"root_threshold": 1}, deep=False, wide=True), "aslist", {})
     # (10) edge_diffs / edgesets / coiterate replay
-    check_edge_diffs(ts, m, ctx)
+    check_edge_diffs(ts, m, ctx, rng, mj)
+    check_coiterate_other(ts, m, ctx, rng, mj)
 
 
-def check_edge_diffs(ts, m, ctx):
+def walk_copy(cp, orig, m, opts, rng, ctx, report, ntrees):
+    pos = orig.index
+    for _ in range(rng.randint(1, 3)):
+        op = rng.choice(["next", "prev"])
+        getattr(cp, op)()
+        if op == "next":
+            pos = 0 if pos == -1 else (pos + 1 if pos + 1 < ntrees else -1)
+        else:
+            pos = ntrees - 1 if pos == -1 else pos - 1
+        ctx.count("check_tree:copy-then-step")
+        if cp.index != pos:
+            report([("copy/index", f"copy of tree {orig.index} after {op}: index {cp.index} expected {pos}")],
+                   "copy() -> step", opts)
+            return
+        if pos >= 0:
+            report(check_tree(cp, m, opts, deep=False, wide=True), f"copy() -> ...{op}", opts)
+    report(check_tree(orig, m, opts, deep=False), "original after its copy moved", opts)
+
+
+def random_jumps(tree, m, opts, rng, ctx, report, bps, pos):
+    ntrees = len(bps) - 1
+    L = m.L
+    for _ in range(6):
+        op = rng.choice(["seek", "seek", "seek", "seek_index", "seek_index", "clear", "next", "prev"])
+        if op == "seek":
+            i = rng.randrange(ntrees)
+            l, r = bps[i], bps[i + 1]
+            x = rng.choice([l, math.nextafter(r, 0), (l + r) / 2, L / 2, math.nextafter(L / 2, 0),
+                            math.nextafter(L / 2, math.inf), -0.0])
+            x = position_form(rng, x, ctx)
+            tree.seek(x)
+            new = index_of(bps, float(x))
+            what = f"seek({x!r})"
+        elif op == "seek_index":
+            i = rng.randrange(ntrees)
+            j = rng.choice([i, i - ntrees])
+            tree.seek_index(j)
+            new = i
+            what = f"seek_index({j})"
+        elif op == "clear":
+            tree.clear()
+            new = -1
+            what = "clear()"
+        elif op == "next":
+            tree.next()
+            new = 0 if pos == -1 else (pos + 1 if pos + 1 < ntrees else -1)
+            what = "next()"
+        else:
+            tree.prev()
+            new = ntrees - 1 if pos == -1 else pos - 1
+            what = "prev()"
+        ctx.count("check_tree:reused-jumps")
+        if tree.index != new:
+            report([("reused/index", f"reused Tree at {pos} after {what}: index {tree.index} expected {new}")],
+                   "reused Tree jumps", opts)
+            return
+        if new >= 0:
+            report(check_tree(tree, m, opts, deep=False, wide=True), f"reused Tree at {pos} after {what}", opts)
+        pos = new
+
+
+def run_large(ts, m, rng, ctx, report, bps, mj):
+    """Structurally extreme instance: one option set (sample lists on, about half of the samples tracked), every
+    tree deep-checked once on the forward pass, shallow on the other paths."""
+    ntrees = len(bps) - 1
+    samples = m.samples()
+    K = len(samples)
+    thr = rng.choice([1, 1, 2, 255, 256, 257, max(1, K), K + 1])
+    tracked = rng.sample(samples, rng.choice([K // 2, K, max(0, K - 1), min(K, 256)])) if K else None
+    opts = {"sample_lists": True, "root_threshold": thr, "tracked": tracked}
+    kw = tree_kwargs(rng, opts, ctx, vary=False)
+    ctx.feature("large:nodes>=256") if m.num_nodes >= 256 else None
+    for i, tree in enumerate(ts.trees(**kw)):
+        ctx.count("check_tree:trees()")
+        ctx.count("check_tree:large")
+        ctx.count("wide-deep")
+        mx = max(int(v) for v in tree.num_children_array)
+        if mx >= 256:
+            ctx.feature("large:num_children>=256")
+        if tree.num_roots >= 256:
+            ctx.feature("large:num_roots>=256")
+        if max((tree.depth(u) for u in (0, m.num_nodes // 2)), default=0) >= 256:
+            ctx.feature("large:depth>=256")
+        report(check_tree(tree, m, opts, deep=True, rng=rng, wide=True), "trees() [large]", opts)
+    opts2 = {"sample_lists": False, "root_threshold": rng.choice([1, 2]), "tracked": None}
+    kw2 = tree_kwargs(rng, opts2, ctx, vary=False)
+    for tree in reversed(ts.trees(**kw2)):
+        ctx.count("check_tree:reversed")
+        report(check_tree(tree, m, opts2, deep=False, wide=True), "reversed(trees()) [large]", opts2)
+    i = rng.randrange(ntrees)
+    x = rng.choice([bps[i], math.nextafter(bps[i + 1], 0)])
+    tree = ts.at(x, **kw)
+    ctx.count("check_tree:at")
+    report(check_tree(tree, m, opts, deep=False, wide=True) + ([] if tree.index == i else [("at", f"at({x}) -> {tree.index}")]),
+           f"at({x}) [large]", opts)
+    cp = tree.copy()
+    ctx.count("check_tree:copy")
+    report(check_tree(cp, m, opts, deep=False, wide=True), "at() -> copy() [large]", opts)
+    walk_copy(cp, tree, m, opts, rng, ctx, report, ntrees)
+    tree = tskit.Tree(ts, **kw)
+    pos = -1
+    for op in ["first"] + ["next"] * ntrees + ["prev"] * ntrees + ["last", "first"]:
+        getattr(tree, op)()
+        pos = {"first": 0, "last": ntrees - 1}.get(op, pos)
+        if op == "next":
+            pos = 0 if pos == -1 else (pos + 1 if pos + 1 < ntrees else -1)
+        elif op == "prev":
+            pos = ntrees - 1 if pos == -1 else pos - 1
+        ctx.count("check_tree:reused-tree")
+        if tree.index != pos:
+            ctx.violation("tree/reused/index", f"reused Tree after {op}: index {tree.index} expected {pos}", {"model": mj})
+            return
+        if pos >= 0:
+            report(check_tree(tree, m, opts, deep=False, wide=True), f"reused Tree after ...{op} [large]", opts)
+    for i, tree in enumerate(ts.aslist(**kw2)):
+        ctx.count("check_tree:aslist")
+        report(check_tree(tree, m, opts2, deep=False, wide=True), "aslist [large]", opts2)
+
+
+# ---------------------------------------------------------------------- edge_diffs / edgesets / coiterate
+
+
+def check_edge_diffs(ts, m, ctx, rng=None, mj=None, light=False):
     bps = m.breakpoints()
+    mj = mj if mj is not None else m.to_json()
+    L = m.L
+
+    def key(e):
+        return (m.time(e.parent), e.parent, e.child)
+
     for direction in (tskit.FORWARD, tskit.REVERSE):
-        cur = {}
-        intervals = []
-        ok = True
-        for (l, r), out, inn in ts.edge_diffs(direction=direction):
-            ctx.count("edge_diffs")
-            for e in out:
-                if cur.get(e.child) != e.parent:
-                    ctx.violation("edge_diffs", f"edge out {e} not in current forest {cur}", {"model": m.to_json()})
+        for terminal in (False, True):
+            cur = {}
+            intervals = []
+            ok = True
+            form = (rng.randrange(3) if rng is not None else 0) if terminal else 0
+            if not terminal:
+                it = ts.edge_diffs(direction=direction)
+            elif form == 0:
+                it = ts.edge_diffs(include_terminal=True, direction=direction)
+            else:
+                it = ts.edge_diffs(True, direction=direction)  # positional
+            items = list(it)
+            exp_n = len(bps) - 1 + (1 if terminal else 0)
+            if len(items) != exp_n:
+                ctx.violation("edge_diffs", f"dir={direction} include_terminal={terminal}: {len(items)} items, expected "
+                              f"{exp_n}", {"model": mj})
+                continue
+            for k, item in enumerate(items):
+                (l, r), out, inn = item
+                ctx.count("edge_diffs")
+                if (item.interval, item.edges_out, item.edges_in) != ((l, r), out, inn):
+                    ctx.violation("edge_diffs", "named fields differ from positions", {"model": mj})
+                last = terminal and k == len(items) - 1
+                for e in out:
+                    if cur.get(e.child) != e.parent:
+                        ctx.violation("edge_diffs", f"edge out {e} not in current forest {cur}", {"model": mj})
+                        ok = False
+                    cur.pop(e.child, None)
+                for e in inn:
+                    if e.child in cur:
+                        ctx.violation("edge_diffs", f"edge in {e} but child already has parent", {"model": mj})
+                        ok = False
+                    cur[e.child] = e.parent
+                for e in list(out) + list(inn):
+                    me = m.edges[e.id]
+                    if (e.left, e.right, e.parent, e.child, e.metadata) != me[:5]:
+                        ctx.violation("edge_diffs", f"edge {e} differs from row {me}", {"model": mj})
+                # documented: edges_in by ascending (parent time, parent id, child id), edges_out the reverse
+                ctx.count("edge_diffs:order")
+                kin = [key(e) for e in inn]
+                kout = [key(e) for e in out]
+                if kin != sorted(kin) or kout != sorted(kout, reverse=True):
+                    ctx.violation("edge_diffs/order", f"dir={direction} interval ({l},{r}): edges_in keys {kin} must ascend, "
+                                  f"edges_out keys {kout} must descend (parent time, parent, child)", {"model": mj})
+                if last:
+                    ctx.count("edge_diffs:terminal")
+                    if cur or inn:
+                        ctx.violation("edge_diffs/terminal", f"dir={direction} terminal item leaves {cur}, edges_in {inn}",
+                                      {"model": mj})
+                    # forward: "both left and right equal to the sequence length"; reverse: not documented (EITHER)
+                    if direction == tskit.FORWARD and (l, r) != (L, L):
+                        ctx.violation("edge_diffs/terminal", f"terminal interval ({l},{r}) expected ({L},{L})", {"model": mj})
+                    continue
+                exp = m.forest_at((l + r) / 2)
+                if cur != exp:
+                    ctx.violation("edge_diffs", f"dir={direction} after interval ({l},{r}) forest {cur} expected {exp}",
+                                  {"model": mj})
                     ok = False
-                cur.pop(e.child, None)
-            for e in inn:
-                if e.child in cur:
-                    ctx.violation("edge_diffs", f"edge in {e} but child already has parent", {"model": m.to_json()})
-                    ok = False
-                cur[e.child] = e.parent
-                me = m.edges[e.id]
-                if (e.left, e.right, e.parent, e.child) != me[:4]:
-                    ctx.violation("edge_diffs", f"edge {e} differs from row {me}")
-            exp = m.forest_at((l + r) / 2)
-            if cur != exp:
-                ctx.violation("edge_diffs", f"dir={direction} after interval ({l},{r}) forest {cur} expected {exp}",
-                              {"model": m.to_json()})
-                ok = False
-            intervals.append((l, r))
-            if not ok:
-                break
-        exp_iv = list(zip(bps[:-1], bps[1:]))
-        if direction == tskit.REVERSE:
-            exp_iv = exp_iv[::-1]
-        if ok and intervals != exp_iv:
-            ctx.violation("edge_diffs", f"dir={direction} intervals {intervals} expected {exp_iv}")
-    # edgesets
-    es = {}
-    for e in ts.edgesets():
-        for c in e.children:
-            es.setdefault((e.left, e.right, e.parent), set()).add(c)
-    # every position: union of edgesets covering x gives forest
-    for i in range(len(bps) - 1):
-        x = (bps[i] + bps[i + 1]) / 2
-        got = {}
-        for (l, r, p), cs in es.items():
-            if l <= x < r:
-                for c in cs:
-                    got[c] = p
-        ctx.count("edgesets")
-        if got != m.forest_at(x):
-            ctx.violation("edgesets", f"edgesets at {x}: {got} expected {m.forest_at(x)}", {"model": m.to_json()})
+                intervals.append((l, r))
+                if not ok:
+                    break
+            exp_iv = list(zip(bps[:-1], bps[1:]))
+            if direction == tskit.REVERSE:
+                exp_iv = exp_iv[::-1]
+            if ok and intervals != exp_iv:
+                ctx.violation("edge_diffs", f"dir={direction} intervals {intervals} expected {exp_iv}", {"model": mj})
+    # edgesets: at every position each parent with children is covered by exactly one edgeset listing exactly them
+    for how in ("edgesets", "records"):
+        with warnings.catch_warnings():
+            warnings.simplefilter("ignore")
+            if how == "edgesets":
+                es = [(e.left, e.right, e.parent, list(e.children)) for e in ts.edgesets()]
+            else:
+                if light or (rng is not None and rng.random() < 0.5):
+                    continue
+                es = []
+                for rec in ts.records():
+                    es.append((rec.left, rec.right, rec.node, list(rec.children)))
+                    if rec.time != m.time(rec.node) or rec.population != m.nodes[rec.node][2]:
+                        ctx.violation("records", f"record {rec}: time/population differ from node row {m.nodes[rec.node]}",
+                                      {"model": mj})
+        for l, r, p, cs in es:
+            if not (0 <= l < r <= L) or l not in bps or r not in bps or not cs or len(set(cs)) != len(cs):
+                ctx.violation(how, f"{how}: malformed item ({l},{r},{p},{cs}) breakpoints {bps}", {"model": mj})
+        for i in range(len(bps) - 1):
+            x = (bps[i] + bps[i + 1]) / 2
+            fr = Forest(m, m.forest_at(x))
+            got = {}
+            dup = False
+            for l, r, p, cs in es:
+                if l <= x < r:
+                    dup = dup or p in got
+                    got[p] = set(cs)
+            ctx.count(how)
+            exp = {p: set(cs) for p, cs in fr.children.items()}
+            if got != exp or dup:
+                ctx.violation(how, f"{how} covering {x}: {got} (overlap={dup}) expected {exp}", {"model": mj})
     # coiterate with itself: intervals tile and trees agree
     k = 0
     for iv, t1, t2 in ts.coiterate(ts):
@@ -266,3 +785,40 @@ def check_edge_diffs(ts, m, ctx):
         k += 1
     if k != len(bps) - 1:
         ctx.violation("coiterate", f"coiterate yielded {k} intervals, expected {len(bps) - 1}")
+
+
+def check_coiterate_other(ts, m, ctx, rng, mj):
+    """coiterate with a DIFFERENT tree sequence of the same length, options passed through: the intervals are the
+    common refinement of both breakpoint lists and each side is the right tree of its own sequence."""
+    if rng.random() < 0.5:
+        return
+    m2 = gen.gen_topology(rng, max_nodes=6, max_bp=4, L=m.L)
+    ts2 = to_ts(m2)
+    b1, b2 = m.breakpoints(), m2.breakpoints()
+    allb = sorted(set(b1) | set(b2))
+    s1, s2 = m.samples(), m2.samples()
+    thr = rng.choice([1, 2])
+    sl = rng.random() < 0.5
+    o = {"sample_lists": sl, "root_threshold": thr, "tracked": None}
+    swap = rng.random() < 0.5
+    a, bb, ma, mb = (ts2, ts, m2, m) if swap else (ts, ts2, m, m2)
+    k = 0
+    for iv, t1, t2 in a.coiterate(bb, sample_lists=sl, root_threshold=thr):
+        ctx.count("coiterate:other")
+        if k + 1 >= len(allb) or (iv.left, iv.right) != (allb[k], allb[k + 1]):
+            ctx.violation("coiterate", f"coiterate interval {k} is {iv}, expected ({allb[k:k + 2]}) from {b1} and {b2}",
+                          {"model": mj, "other": m2.to_json()})
+            return
+        x = (iv.left + iv.right) / 2
+        for t, mm in ((t1, ma), (t2, mb)):
+            if t.index != index_of(mm.breakpoints(), x):
+                ctx.violation("coiterate", f"coiterate interval {iv}: tree index {t.index}, expected "
+                              f"{index_of(mm.breakpoints(), x)}", {"model": mj, "other": m2.to_json()})
+                return
+            bad = check_tree(t, mm, o, deep=False, wide=True)
+            for key, msg in bad[:3]:
+                ctx.violation(f"tree/{key}", f"[coiterate(other) opts={o}] {msg}", {"model": mm.to_json()})
+        k += 1
+    if k != len(allb) - 1:
+        ctx.violation("coiterate", f"coiterate(other) yielded {k} intervals, expected {len(allb) - 1}",
+                      {"model": mj, "other": m2.to_json()})
